@@ -4,13 +4,13 @@ export GOFLAGS=-mod=mod GOPROXY=off GOSUMDB=off GOTOOLCHAIN=local
 D=$(cd "$1" && pwd)
 COPY=$(mktemp -d /tmp/seedrepo-XXXXXX)
 cp -r /repo/. "$COPY"/
-trap 'rm -rf "$COPY"' EXIT
+trap 'rm -rf "$COPY" "$COPY".*.log' EXIT
 res=""
-bash "$D/demo.sh" "$COPY" >/tmp/seed-demo-clean.log 2>&1; r1=$?
+bash "$D/demo.sh" "$COPY" >$COPY.demo-clean.log 2>&1; r1=$?
 git -C "$COPY" status --porcelain | grep -q . && { git -C "$COPY" checkout -q -- . ; git -C "$COPY" clean -fdq; }
 git -C "$COPY" apply "$D/patch.diff" || { echo "APPLY_FAILED"; exit 1; }
-VERIF_REPO="$COPY" /verif/tools/baseline.sh >/tmp/seed-suite.log 2>&1; r2=$?
-suite=$(grep "^passed=" /tmp/seed-suite.log)
-bash "$D/demo.sh" "$COPY" >/tmp/seed-demo-mut.log 2>&1; r3=$?
+VERIF_REPO="$COPY" /verif/tools/baseline.sh >$COPY.suite.log 2>&1; r2=$?
+suite=$(grep "^passed=" $COPY.suite.log)
+bash "$D/demo.sh" "$COPY" >$COPY.demo-mut.log 2>&1; r3=$?
 echo "demo_on_clean_rc=$r1 suite_with_patch_rc=$r2 ($suite) demo_with_patch_rc=$r3"
 [ $r1 -eq 0 ] && [ $r2 -eq 0 ] && [ $r3 -ne 0 ]
